@@ -220,6 +220,9 @@ def mm(op, input, other):
             )
             and input.qtype == qint8
             and other.qtype == qint8
+            # The scales can only be factored out if they are not laid along the contraction axis
+            and input.axis in (None, 0)
+            and other.axis in (None, -1)
             and n > 16
             and n % 8 == 0
             and m % 8 == 0
